@@ -8,9 +8,11 @@ package main
 import (
 	"encoding/binary"
 	"encoding/json"
+	"errors"
 	"flag"
 	"fmt"
 	"math/rand"
+	"net/netip"
 	"os"
 	"path/filepath"
 	"sort"
@@ -26,7 +28,8 @@ import (
 // Item codes (Timers/Check.v decode): 0 up, 1 tun batch (a = first id, b = count),
 // 2 response, 3 initiation, 4 data (a = id), 5 keepalive received,
 // 10 initiation sent, 11 response sent, 12 keepalive sent, 13 data sent (a = id),
-// 14 TUN write (a = id), 20 end of observation.
+// 14 TUN write (a = id), 15 datagram for which Bind.Send returned an error (a = 0 initiation,
+// 1 response, 2 keepalive, 3 data), 6 device down, 20 end of observation.
 type Item struct {
 	C   int    `json:"c"`
 	T   int64  `json:"t"` // microseconds
@@ -37,7 +40,7 @@ type Item struct {
 
 // Spec selects and parametrises a scenario.
 type Spec struct {
-	Kind  string `json:"kind"`            // retx, giveup, lost, ka10, newhs, persist, flush
+	Kind  string `json:"kind"`            // retx, retxerr, bounce, giveup, lost, ka10, newhs, persist, flush, rand
 	Pka   int    `json:"pka,omitempty"`   // persistent keepalive (s)
 	N     int    `json:"n,omitempty"`     // retx: retransmissions; persist: keepalives; flush: containers; lost: k
 	Per   int    `json:"per,omitempty"`   // packets per TUN batch
@@ -74,6 +77,35 @@ type scen struct {
 	nextID uint64
 	meas   map[string][]float64
 	err    string
+	fmu    sync.Mutex
+	failed []Item // datagrams refused by the bind (SendErrFn)
+}
+
+// failInitiation makes the bind return an error for the k-th initiation (1-based)
+// handed to it, and only for that one; the attempt is logged with its time.
+func (s *scen) failInitiation(k int) {
+	n := 0
+	s.w.Bind.SendErrFn = func(bufs [][]byte, to netip.AddrPort) (int, error) {
+		s.fmu.Lock()
+		defer s.fmu.Unlock()
+		for _, b := range bufs {
+			if isInit(b) {
+				n++
+				if n == k {
+					s.failed = append(s.failed, Item{C: 15, T: us(time.Now()), A: 0, seq: sim.Seq.Add(1)})
+					return 0, errors.New("network is unreachable")
+				}
+			}
+		}
+		return len(bufs), nil
+	}
+}
+
+func (s *scen) down() {
+	s.in(6, 0, 0)
+	if err := s.w.Dev.Down(); err != nil {
+		s.err = "down: " + err.Error()
+	}
 }
 
 func newScen(spec Spec) (*scen, error) {
@@ -271,6 +303,9 @@ func (s *scen) finish() Case {
 		}
 		outs = append(outs, it)
 	}
+	s.fmu.Lock()
+	outs = append(outs, s.failed...)
+	s.fmu.Unlock()
 	sort.SliceStable(outs, func(i, j int) bool { return outs[i].seq < outs[j].seq })
 	// merge by time; inputs before outputs at equal times
 	var all []Item
@@ -395,6 +430,55 @@ func run(spec Spec) Case {
 			s.tun(per)
 		}
 		s.sleepUntil(time.Duration(spec.N)*5334*ms + 650*ms)
+
+	case "retxerr":
+		// unanswered initiation; the bind refuses the N-th one (an attempt all the same):
+		// the next retransmission is due 5 s + jitter after that attempt
+		s.failInitiation(spec.N)
+		s.tun(per)
+		s.sleepUntil(time.Duration(spec.N)*5334*ms + 650*ms)
+
+	case "bounce":
+		// interface bounce (Down/Up) shortly after a handshake message was sent: the restarted
+		// peer must not be held back by the 5 s handshake rate limit
+		var init *sim.Sent
+		if spec.Pka > 0 {
+			init = s.waitInit(1, 2*sec)
+		} else {
+			s.tun(per)
+			init = s.waitInit(1, 2*sec)
+		}
+		if init == nil {
+			s.err = "no initiation"
+			break
+		}
+		time.Sleep(20 * ms)
+		if spec.Var != "unanswered" {
+			if !s.answer(init) {
+				break
+			}
+		}
+		time.Sleep(time.Duration(300+spec.Delay*3%900) * ms)
+		s.down()
+		time.Sleep(time.Duration(20+spec.Delay%150) * ms)
+		s.up()
+		t0 := time.Now()
+		if spec.Pka == 0 {
+			time.Sleep(30 * ms)
+			s.tun(per)
+		}
+		n0 := 1
+		if i2 := s.waitInit(n0+1, s.since()+2*sec); i2 != nil {
+			time.Sleep(20 * ms)
+			s.answer(i2)
+		} else {
+			s.err = "no initiation after the bounce"
+		}
+		if spec.Pka > 0 {
+			time.Sleep(time.Until(t0.Add(2*time.Duration(spec.Pka)*sec + 700*ms)))
+		} else {
+			time.Sleep(time.Until(t0.Add(2800 * ms)))
+		}
 
 	case "giveup":
 		if spec.Pka == 0 {
@@ -740,6 +824,12 @@ func quickSpecs(r *rand.Rand) []Spec {
 		{Kind: "retx", N: 2, Per: 3, Delay: d()},
 		{Kind: "retx", N: 2, Pka: 25, Delay: d()},
 		{Kind: "retx", N: 2, Pka: 1, Delay: d()},
+		{Kind: "retxerr", N: 2, Per: 1, Delay: d()},
+		{Kind: "retxerr", N: 1, Per: 2, Delay: d()},
+		{Kind: "bounce", Pka: 2, Delay: d()},
+		{Kind: "bounce", Pka: 1, Var: "unanswered", Delay: d()},
+		{Kind: "bounce", Per: 1, Delay: d()},
+		{Kind: "bounce", Per: 2, Var: "unanswered", Delay: d()},
 		{Kind: "lost", N: 1, Per: 1, Var: "newhs", Delay: d()},
 		{Kind: "lost", N: 2, Per: 2, Var: "more", Delay: d()},
 		{Kind: "lost", N: 3, Per: 1, Delay: d()},
